@@ -158,10 +158,28 @@ def r5_stale_tokens_reclaimed(chk: Check):
     c09.r3_foreign_holdings_watched(chk)
 
 
+def r6_start_regenerates(chk: Check):
+    """a scheduler killed while writing the job script leaves a truncated / non-executable file: every start must regenerate it"""
+    tree = chk.tree
+    f = tree.func("commandline", "CommandLineJob.prepare")
+    g = CFG(f.node)
+    wr = [n for n, c in g.call_nodes(lambda c: tail(c) == "write" and "scriptbuilder" in src(c.func))]
+    rets = [n for n in g.live if n.kind == "stmt" and isinstance(n.ast, ast.Return)]
+    ok = bool(wr) and g.on_every_path(wr)
+    chk.require(ok, chk.fkey(f, "script written on every path"), "prepare() must write the job script and its parameter file on every path (an existing file may be the truncated leftover of a killed scheduler)", chk.loc(f.module, f.node))
+    run_ = tree.func("commandline", "CommandLineJob.aio_run")
+    gr = CFG(run_.node)
+    rdr = ReachingDefs(gr)
+    pr = [n for n, c in gr.call_nodes(lambda c: src(c.func) == "self.prepare")]
+    starts = [n for n, c in gr.call_nodes(lambda c: tail(c) == "start" and "processbuilder" in rdr.canon(c.func.value, gr.entry) or tail(c) == "start")]
+    chk.require(bool(pr) and all(any(gr.dominates(p_, s_) for p_ in pr) for s_ in starts) and bool(starts), chk.fkey(run_, "prepare before start"), "aio_run must prepare the job files before starting the process", chk.loc(run_.module, run_.node))
+
+
 RULES = [
     ("R1", "adoption precedes start: job.aio_process() dominates every start; the adoption branch marks RUNNING, waits for the process, ends DONE/ERROR and never starts the job", r1_adoption_precedes_start),
     ("R2", "adoption decision table of CommandLineJob.aio_process (own process / no pid file / vanished / running / not running); a vanished pid maps to None", r2_adoption_decision),
     ("R3", "the job does not depend on the scheduler's life: stdout/stderr to files, no pipe, detached by default, no preexec_fn, stopping the experiment kills nothing", r3_detached),
+    ("R6", "every start regenerates the job script and parameter file (prepare writes them on every path, before the process is started)", r6_start_regenerates),
     ("R4", "a relaunch behind a still-running body is serialised by the same lock and then finds the marker, which nothing removes (= C05.R2-R5)", r4_relaunch_serialised),
     ("R5", "token holdings left by a dead scheduler are reclaimed after restart: every foreign holding that is read is watched (at construction of the token too) and its watcher deletes it (= C09.R3)", r5_stale_tokens_reclaimed),
 ]
